@@ -23,6 +23,7 @@ ASSUMPTIONS = ["X1 memory orders of the atomic wrappers", "C02.R3: the joiner's 
 RULES_DOC = dict(common.SHARED_DOC)
 RULES_DOC["R8"] = "= C01.R5: a unit cancelled in a yield-family callback is not pushed back to its pool (a joiner is released once and the terminated unit never runs again)"
 RULES_DOC["R9"] = "= C18.R6: a failed step leaves the descriptor it was given unchanged (a revive that fails does not leave a TERMINATED unit marked READY, on which a join or free would never return)"
+RULES_DOC["X4"] = common.X4_DOC
 RULES_DOC.update({
     "R1": "every return of thread_join (and of its waiting helpers) follows an acquire-load observation state == TERMINATED",
     "R2": "joiner: fetch_or(REQ_JOIN) before suspending, suspend only if none was pending; BLOCKED before the p_link release-store; futex dummy prepared before p_link is published",
@@ -591,6 +592,7 @@ def rule_R7(P, rep):
 
 
 def run(P, rep, tier):
+    common.rule_X4(P, rep)
     common.run_shared(P, rep, which=("X1",))
     rule_R1(P, rep)
     rule_R2(P, rep)
